@@ -102,3 +102,28 @@ func debugIgx(repo, rel, typ, method string) int {
 	}
 	return 0
 }
+
+func debugOwns(repo string) int {
+	p, err := loadProgram(repo, "")
+	if err != nil {
+		fmt.Println(err)
+		return 1
+	}
+	lc := p.lifecycle()
+	ao := p.ctxMethod(lc, "ActorOf")
+	g := p.igxSkip(ao, lc.roleFuncs(p))
+	for _, f := range g.Fns {
+		fmt.Println(fnName(f), g.owns(p, f))
+	}
+	st := lc.Ctx.Underlying().(*types.Struct)
+	fields := map[*types.Var]bool{}
+	for i := 0; i < st.NumFields(); i++ {
+		if _, ok := st.Field(i).Type().Underlying().(*types.Map); ok {
+			fields[st.Field(i)] = true
+		}
+	}
+	for _, a := range p.fieldAccesses(fields) {
+		fmt.Println(a.Field.Name(), a.Kind, fnName(a.Fn), a.Write)
+	}
+	return 0
+}
